@@ -200,7 +200,7 @@ Definition branch_tag_of (tg : ustring) (b : schema) : option ustring :=
   | None => None
   end.
 
-(* [v] carries, under [tg], none of the branches' tag constants *)
+(* [v] carries, under [tg], a value that is none of the branches' tag constants *)
 Definition tag_bad (tg : ustring) (bs : list schema) (v : json) : bool :=
   match v with
   | JObj kvs =>
@@ -209,17 +209,19 @@ Definition tag_bad (tg : ustring) (bs : list schema) (v : json) : bool :=
                                                  | Some y => ustr_eqb x y
                                                  | None => false
                                                  end) bs)
-      | _ => true
+      | Some _ => true             (* the constants are strings *)
+      | None => false              (* a missing tag is a missing required member, not a tag violation *)
       end
-  | _ => true
+  | _ => false
   end.
 
-(* the property that every branch of a oneOf pins to one string constant, if there is exactly one *)
+(* the REQUIRED property that every branch of a oneOf pins to one string constant, if there is exactly one *)
 Definition common_tag (bs : list schema) : option ustring :=
   match bs with
   | [] => None
   | b0 :: _ =>
-      match filter (fun tg => forallb (fun b => is_some (branch_tag_of tg b)) bs) (map fst (sch_props b0)) with
+      match filter (fun tg => forallb (fun b => is_some (branch_tag_of tg b) && mem_ustr tg (sch_required b)) bs)
+                   (map fst (sch_props b0)) with
       | [tg] => Some tg
       | _ => None
       end
